@@ -234,14 +234,21 @@ pub fn scan<V: Vary>(
 
 #[inline]
 fn round_up_to_half(x: f32) -> f32 {
+    // Note: computing `floor(x + 0.5) + 0.5` is off by one if `x` is so close
+    // below a pixel center that `x + 0.5` rounds up to the next integer
     #[cfg(feature = "fp")]
-    {
+    let floor = {
         use crate::math::float::f32;
-        f32::floor(x + 0.5) + 0.5
-    }
+        f32::floor(x)
+    };
     #[cfg(not(feature = "fp"))]
-    {
-        (x + 0.5) as i32 as f32 + 0.5
+    let floor = x as i32 as f32;
+
+    // The difference is always exactly representable
+    if x - floor < 0.5 {
+        floor + 0.5
+    } else {
+        floor + 1.5
     }
 }
 
